@@ -186,8 +186,9 @@ def dec_graph_out(out, n):
     return es, out[p:p + n], out[p + n:p + n + n * n], out[p + n + n * n:]
 
 
-def generator_draws(kit, env, nkeys):
-    """Replays utils.multi_random_walk piecewise: the model's random_walk / merge_graphs are fed the draws recovered from
+def generator_draws(kit, env, nkeys, keys=None):
+    """(keys: explicit list of the keys handed to _generate_graph, instead of nkeys keys derived from kit.seed)
+    Replays utils.multi_random_walk piecewise: the model's random_walk / merge_graphs are fed the draws recovered from
     the real key stream (control flow = the MODEL's; a first model pass tells how many walk draws were consumed), every
     intermediate graph is compared with the real utils.random_walk / utils.merge_graphs and the final one with the
     real generator's _generate_graph."""
@@ -207,8 +208,8 @@ def generator_draws(kit, env, nkeys):
             rw[kk] = jax.jit(lambda key, n=sizes[i], e=sub[i]: U.random_walk(jnp.arange(n, dtype=jnp.int32), e, D, key))
     gen_graph = jax.jit(g._generate_graph)
     rkeys = {}
-    for kidx in range(nkeys):
-        key = jax.random.PRNGKey(kit.seed * 1009 + kidx)
+    for kidx in range(nkeys if keys is None else len(keys)):
+        key = jax.random.PRNGKey(kit.seed * 1009 + kidx) if keys is None else jnp.asarray(keys[kidx])
         adj_real, ne_real, _ = gen_graph(key)
         graph_key, base_key = jax.random.split(key)
         sub_keys = jax.random.split(graph_key, A)
@@ -289,6 +290,41 @@ def generator_draws(kit, env, nkeys):
 def all_in_tree_after(n, start, wd):
     """sanity only: every node was drawn at least once in the consumed prefix"""
     return set([start] + [int(x) for x in wd]) >= set(range(n))
+
+
+# ---------------------------------------------------------------- known finding: the walk moves after a refused edge
+WALK_TAG = dict(op="gen-walk", cause="moves-after-refused-edge")
+WALK_WHAT = ("utils.random_walk moves to the neighbour even when add_edge refused the edge (degree already > max_degree): "
+             "the next unmarked node is linked to an unmarked node or to itself -> %s")
+
+
+def walk_probe(kit, calls, metas):
+    """Deterministic exhibits of the finding {op: gen-walk, cause: moves-after-refused-edge}: real instances whose adjacency
+    matrix has a self loop / a block that is not connected inside itself.  Each probe (a) queues the verified instance
+    certificate on the real reset state (reported with the tag by the 'instance' handler), (b) replays the draws recovered
+    from the real key stream through the model's random_walk / merge_graphs: model = implementation must still hold."""
+    import jax
+    import jumanji
+    probes = [("probe-n12e12d2", lambda: _mk(12, 12, 2, 2, 3, 24, 24), 161)]
+    if kit.tier != "quick":
+        probes += [("probe-MMST-v0", lambda: jumanji.make("MMST-v0"), 60800), ("probe-MMST-v0", lambda: jumanji.make("MMST-v0"), 396169)]
+    envs = {}
+    for label, make, seed in probes:
+        if label not in envs:
+            e = make()
+            envs[label] = (e, jax.jit(e.reset))
+        env, reset = envs[label]
+        A, N, K, M, T = dims(env)
+        g = env._generator
+        key = jax.random.PRNGKey(seed)
+        s0, _ = reset(key)
+        base = np.asarray(s0.node_edges)[0]
+        calls.append(("mmst_instance_io", [A, N, K] + ints(s0.adj_matrix) + ints(base) + ints(s0.nodes_to_connect)))
+        metas.append(("instance", None, None, dict(cfg=label, p="probe", b=seed, maxdeg=int(g._max_degree), nedges=int(g._num_edges),
+                                                   key=ints(key), need=ints(s0.nodes_to_connect), probe=True)))
+        _, pk = jax.random.split(key)            # MMST.reset
+        graph_key, _ = jax.random.split(pk)      # SplitRandomGenerator.__call__
+        generator_draws(kit, env, 1, keys=[np.asarray(graph_key)])
 
 
 # ---------------------------------------------------------------- contested joint actions (tie-break, C06)
@@ -615,6 +651,7 @@ def analyze(kit):
 
         if __import__("os").environ.get("MMST_TIMING"):
             print("timing", cfg["label"], "rolls+sweeps %.1f" % (_t1 - _t0), "gen %.1f" % (_t.time() - _t1), flush=True)
+    walk_probe(kit, calls, metas)
     _t2 = _t.time()
     outs = kit.model(calls)
     if __import__("os").environ.get("MMST_TIMING"):
@@ -650,9 +687,24 @@ def analyze(kit):
         elif kind == "instance":
             kit.res["C10"].evaluations += 1
             kit.res["C10"].distinct.add((m["cfg"], m["p"], m["b"]))
+            N_ = args[1]
+            adjm = np.asarray(args[3:3 + N_ * N_]).reshape(N_, N_)
+            loops = [i for i in range(N_) if adjm[i, i]]
+            symmetric = bool((adjm == adjm.T).all()) and bool(((adjm == 0) | (adjm == 1)).all())
+            walk_symptoms = []
             for nm, v in zip(["symmetric-loopless", "node_edges-consistent", "blocks-connected", "required-nodes-in-own-block"], got[:4]):
-                if v != 1:
+                if v == 1:
+                    continue
+                if nm == "symmetric-loopless" and loops and symmetric:
+                    walk_symptoms.append("self loop at node(s) %s" % loops)
+                elif nm == "blocks-connected":
+                    walk_symptoms.append("a block of the split is not connected inside itself")
+                else:
                     kit.fail(["C10"], "generated instance: %s fails" % nm, dict(cfg=m["cfg"], op="gen-" + nm), dict(m, seed=kit.seed))
+            if walk_symptoms:
+                kit.fail(["C10"], WALK_WHAT % "; ".join(walk_symptoms), dict(WALK_TAG, cfg=m["cfg"]), dict(m, selfloops=loops, seed=kit.seed))
+            if m.get("probe"):
+                kit.res["C10"].count("walk-probe:" + ("exhibited" if walk_symptoms else "not-exhibited"))
             kit.res["C10"].count("max-degree=%d (max_degree=%d)" % (got[4], m["maxdeg"]))
             kit.res["C10"].count("distinct-edges-minus-num_edges=%d" % (got[5] - m["nedges"]))
             if got[4] > m["maxdeg"]:
